@@ -103,6 +103,53 @@ func defaultsCorpus() []CorpusReq {
 			add(m+"/"+name+"/anchoring-newCriterion>mixing>fatigue", withBiases(r, []M{core[8], core[6], core[3]}))
 		}
 	}
+	for _, m := range []string{"electreIII", "majorityHeuristic", "satisfactionHeuristic", "weightedSum"} {
+		r := rootRequest(m, false, false)
+		add(m+"/alternative-named-twice-in-choseToMake", set(r, L{"c", "a", "c", "b"}, "choseToMake"))
+		add(m+"/alternative-named-twice-in-choseToMake/fatigue", withBiases(set(r, L{"c", "a", "c", "b"}, "choseToMake"), []M{core[2]}))
+	}
+	for _, m := range []string{"weightedSum", "electreIII", "majorityHeuristic", "aspectEliminationHeuristic", "satisfactionHeuristic"} {
+		r := rootRequest(m, true, false)
+		for _, c := range asL(r["criteria"]) {
+			if asS(asM(c)["type"]) == "gain" {
+				delete(asM(c), "type")
+			}
+		}
+		add(m+"/types-omitted", r)
+		add(m+"/types-omitted/concealment", withBiases(r, []M{core[4]}))
+	}
+	for _, m := range allMethods {
+		add(m+"/fractional-probabilities", withBiases(set(rootRequest(m, true, false), 11, "biasApplyRandomSeed"), []M{
+			{"name": "fatigue", "applyProbability": 0.5, "props": M{"function": "const", "params": M{"value": 0.25}, "randomSeed": 2}},
+			{"name": "preferenceReversal", "applyProbability": 0.5, "props": M{"ratio": 0.5}},
+			{"name": "criteriaOmission", "applyProbability": 0.5, "props": M{"ratio": 0.34}}}))
+	}
+	{
+		// anchoring as a new criterion over five criteria whose reference criterion's range straddles zero (float sums of
+		// importance-weighted terms: their order of summation must not be left to a map)
+		r := bigRequest("weightedSum")
+		for i, a := range asL(r["knownAlternatives"]) {
+			cm := asM(asM(a)["criteria"])
+			cm["c1"] = asF(cm["c1"])*0.37 - 0.61*float64(i%3)
+			cm["c3"] = asF(cm["c3"]) * 0.113
+		}
+		add("weightedSum/5x6-signed/anchoring-newCriterion", withBiases(r, []M{anchoringBias(2, false, true)}))
+		add("weightedSum/5x6-signed/anchoring-newCriterion-nadir", withBiases(r, []M{anchoringBias(2, true, false)}))
+	}
+	for _, m := range []string{"aspectEliminationHeuristic", "satisfactionHeuristic"} {
+		fn, p := "idealAdditiveCoefficient", M{"coefficient": 0.25, "minValue": 0.0, "maxValue": 1.0}
+		if m == "satisfactionHeuristic" {
+			fn, p = "idealSubtractiveCoefficient", M{"coefficient": 0.25, "minValue": 0.25, "maxValue": 1.0}
+		}
+		r := withMP(rootRequest(m, true, false), M{"function": fn, "params": p})
+		for _, bi := range []int{0, 4, 6, 8} {
+			add(fmt.Sprintf("%s/%s/%s", m, fn, biasLabel(core[bi])), withBiases(r, []M{core[bi]}))
+		}
+		r2 := withMP(rootRequest(m, true, false), M{"function": "idealMultipliedCoefficient", "params": M{"coefficient": 0.5, "minValue": 0.25, "maxValue": 1.0}})
+		for _, bi := range []int{0, 4} {
+			add(fmt.Sprintf("%s/idealMultipliedCoefficient/%s", m, biasLabel(core[bi])), withBiases(r2, []M{core[bi]}))
+		}
+	}
 	add("seeds/negative-and-beyond-32-bits", withBiases(set(ws, -7, "biasApplyRandomSeed"), []M{
 		{"name": "fatigue", "applyProbability": 0.5, "props": M{"function": "const", "params": M{"value": 0.25}, "randomSeed": 1099511627776}},
 		{"name": "criteriaOmission", "applyProbability": 0.5, "props": M{"ratio": 0.5, "ordering": "random", "randomSeed": -3}},
